@@ -83,6 +83,11 @@ def run(rep, tier, seed):
     big = [c for c in confs if c[0] in ("fat12-s1k", "fat12-s4k", "fat12-c2k", "fat16-c2k-1fat")]
     for i in range(4 if tier == "quick" else 60):
         scripts.append(sessions.dir_heavy_session(rng, big[i % len(big)], nfiles=rng.range(8, 16), fill=(209, 65, 229, 0)[(i // 4) % 4]))
+    # the same on 512-byte clusters (16 slots): most entries straddle or touch a cluster boundary, the directory's clusters are
+    # not adjacent, and every entry is finally removed / moved / renamed
+    small = [c for c in confs if c[0] in ("fat12-small", "fat12-1fat", "fat16-min")]
+    for i in range(3 if tier == "quick" else 40):
+        scripts.append(sessions.dir_heavy_session(rng, small[i % len(small)], nfiles=rng.range(8, 16)))
     # the standard script on every boundary volume (exact-fit tables, width boundaries, maximal volumes with only the top clusters
     # free, FAT32 above cluster 0xFFFF, large sectors on stale devices, tiny root)
     scripts += [sc_ for _, sc_ in sessions.matrix_sessions(rng, tier)]
